@@ -330,7 +330,9 @@ func genFaultGrid(p func(string, ...any)) {
 
 // C11 grid: n = 0..6, verifier permutations / counts, corrupted or empty subsets
 func genSignGrid(r *rng, nmax int, p func(string, ...any)) {
-	hdk := func(i int) string { return fmt.Sprintf("H(-;{i64:1=a:%d};-;{})", []int{-7, -35, -36, -8, -37, -38}[i%6]) }
+	hdk := func(i int) string {
+		return fmt.Sprintf("H(-;{i64:1=a:%d};-;{})", []int{-7, -35, -36, -8, -37, -38}[i%6])
+	}
 	algk := func(i int) int { return []int{-7, -35, -36, -8, -37, -38}[i%6] }
 	for n := 0; n <= 6; n++ {
 		sigs, ss := []string{}, []string{}
@@ -496,8 +498,6 @@ func genEcGrid(r *rng, n int, p func(string, ...any)) {
 		}
 	}
 }
-
-
 
 // protected-header content of exactly `target` bytes: {1: -7, 4: h'00…'} (or the empty map / string)
 func contentOfLen(target int) ([]byte, bool) {
